@@ -15,7 +15,9 @@ RULE = ('every distinct TZif file under /usr/share/zoneinfo (incl. right/ with l
         'block boundary, index bytes, isdst/indicator bytes, version bytes incl. mismatched second header, unsorted '
         'times, footer edits); random bytes with and without a valid header; TZ strings from the POSIX grammar '
         '(+ RFC 8536 extension) with per-production mutations; lookups batched per zone: i64 extremes, +-2 s around '
-        'every transition instant and wall time, rule boundaries of sampled years, year-range ends')
+        'every transition instant and wall time, rule boundaries of sampled years, year-range ends; raw blocks with '
+        'utoff = -2^31 (and +-1) on named / empty-designation / unused types in either block of v1-v3 files, designation '
+        'tables without final NUL with an index into the unterminated tail')
 
 ZONEINFO = '/usr/share/zoneinfo'
 NAMECH = 'ABCDEFGHIJKLMNOPQRSTUVWXYZabcdefghijklmnopqrstuvwxyz0123456789+-'
@@ -609,6 +611,78 @@ def system_files():
     return list(seen.keys())
 
 
+def raw_block(ver, tsz, types, table, trans=(), isstd=b'', isut=b''):
+    """types: (utoff as unsigned 32-bit, isdst byte, designation index byte); table: bytes as they are"""
+    f = '>l' if tsz == 4 else '>q'
+    out = b'TZif' + ver + b'\0' * 15
+    out += struct.pack('>6L', len(isut), len(isstd), 0, len(trans), len(types), len(table))
+    out += b''.join(struct.pack(f, t) for t, _ in trans) + bytes(i for _, i in trans)
+    out += b''.join(struct.pack('>LBB', o & 0xffffffff, d, i) for (o, d, i) in types) + table + isstd + isut
+    return out
+
+
+def raw_file(version, types, table, trans=(), footer=b'\n\n', first=None):
+    if version == 1:
+        return raw_block(b'\0', 4, types, table, trans)
+    ver = {2: b'2', 3: b'3'}[version]
+    b1 = raw_block(ver, 4, [(0, 0, 0)], b'\0') if first is None else raw_block(ver, 4, *first)
+    return b1 + raw_block(ver, 8, types, table, trans) + footer
+
+
+def range_cases(rng):
+    MIN = 0x80000000
+    tables = [
+        # (table, [(types, transitions)])
+        (b'LMT\0EST\0EDT\0', [
+            ([(MIN, 0, 0)], []),                                  # named type, the only type
+            ([(MIN, 0, 3)], []),                                  # empty designation (index on a NUL), only type
+            ([(MIN, 1, 7)], []),
+            ([(MIN, 0, 11)], []),                                 # the final NUL
+            ([(-18000, 0, 4), (MIN, 1, 8)], [(100, 1)]),          # named, second type
+            ([(-18000, 0, 4), (MIN, 0, 3)], [(100, 1)]),          # empty designation, second type
+            ([(MIN, 0, 3), (-18000, 0, 4)], [(100, 1)]),          # empty designation, first type
+            ([(MIN, 0, 0), (-18000, 0, 4), (-14400, 1, 8)], [(0, 1), (100, 2)]),
+            ([(-18000, 0, 4), (-14400, 1, 8), (MIN, 0, 7)], [(0, 1), (100, 0)]),   # unused type
+            ([(MIN + 1, 0, 0)], []), ([(MIN + 1, 0, 3)], []), ([(MIN - 1, 0, 3)], []),   # neighbours: accepted
+            ([(MIN, 2, 3)], []), ([(MIN, 0, 12)], []), ([(MIN, 0, 255)], []),      # other defects first
+        ]),
+        (b'\0', [([(MIN, 0, 0)], []), ([(MIN, 1, 0)], []), ([(0, 0, 0), (MIN, 0, 0)], [(5, 1)]), ([(0, 0, 0)], [])]),
+        # designation tables WITHOUT a final NUL; the index selects the unterminated tail
+        (b'LMT\0EST\0EDT', [
+            ([(-18000, 0, 8)], []), ([(-18000, 0, 4), (-14400, 1, 8)], [(100, 1)]),
+            ([(-18000, 0, 9)], []), ([(-18000, 0, 10)], []), ([(-18000, 0, 4)], []), ([(-18000, 0, 7)], []),
+            ([(MIN, 0, 8)], []), ([(-18000, 0, 4), (MIN, 0, 8)], [(100, 1)]),
+        ]),
+        (b'UTC', [([(0, 0, 0)], []), ([(0, 0, 2)], []), ([(MIN, 0, 0)], [])]),
+        (b'E', [([(0, 0, 0)], []), ([(MIN, 0, 0)], [])]),
+    ]
+    for table, recs in tables:
+        for types, trans in recs:
+            for version in (1, 2, 3):
+                files = [raw_file(version, types, table, trans)]
+                if version != 1:
+                    # the same defect in the 32-bit block of a v2+ file is skipped by the reader
+                    files.append(raw_file(version, [(0, 0, 0)], b'\0', (), first=(types, table, trans)))
+                    files.append(raw_file(version, types, table, trans, first=(types, table, trans)))
+                for data in files:
+                    yield case_line('tz.parse', data)
+                    yield case_line('tz.at', data, [0, 99, 100, 101, -2**31, 2**31, I64_MIN, I64_MAX])
+                    yield case_line('tz.atlocal', data, [ndt_of_local(t) for t in (0, 100, 86400 * 365)])
+    # writer-made zones with the offset on a named / unnamed type and a footer rule
+    for version in (1, 2, 3):
+        for names in (('STD', 'DST'), ('', 'DST'), ('STD', ''), ('', '')):
+            for which in (0, 1):
+                z = Zone()
+                offs = [3600, 7200]
+                offs[which] = -2**31
+                z.types = [(offs[0], 0, names[0]), (offs[1], 1, names[1])]
+                z.trans = [(rng.randint(-10**9, 10**9), 1)]
+                z.footer = ''
+                data, _ = write_tzif(z, version, slim=rng.random() < 0.5)
+                yield case_line('tz.parse', data)
+                yield case_line('tz.at', data, [z.trans[0][0] - 1, z.trans[0][0], z.trans[0][0] + 1])
+
+
 def cases(tier, rng):
     quick = tier == 'quick'
     sysf = system_files()
@@ -671,6 +745,9 @@ def cases(tier, rng):
                 yield case_line('tz.parse', data)
                 ex = [t + d for t, _ in lp for d in (-2, -1, 0, 1, 2) if I64_MIN <= t + d <= I64_MAX] + [I64_MAX - c for _, c in lp] + [I64_MIN - c for _, c in lp if c < 0]
                 yield from lookup_cases('tz.at', 'tz.atlocal', [data], [(t, 0, 0) for t, _ in tt], rng, extra=[e for e in ex if I64_MIN <= e <= I64_MAX])
+    # 5b. out-of-range offset (RFC 8536 3.2: utoff MUST NOT be -2^31) and unterminated designations:
+    #     raw blocks so that the designation index can point anywhere in the table
+    yield from range_cases(rng)
     # 6. random bytes
     for _ in range(6000 if quick else 200000):
         yield case_line('tz.parse', rand_bytes(rng))
